@@ -21,6 +21,14 @@ func (x vfSizedItem) String() string         { return x.s }
 func (x vfSizedItem) TerminalCellWidth() int { return x.w }
 func (x vfSizedItem) Height() int            { return x.h }
 
+// a text-like item (it has String) that encoding/json refuses to encode
+type vfUnencodable struct {
+	F func()
+	s string
+}
+
+func (x vfUnencodable) String() string { return x.s }
+
 // vfRenderAll renders t in every format (text under ndeco decorations) and checks the total-renderer
 // contract on each: either complete output or an error with empty text.
 func vfRenderAll(t tabular.Table, ndeco int, withHTML bool) {
